@@ -31,6 +31,7 @@ type loopInfo struct {
 	// writes: per heap, the loop-invariant roots written through; unknownW: heaps written through other pointers
 	writes   map[string][]ssa.Value
 	unknownW map[string]bool
+	callArgs []ssa.Value // arguments of calls with unknown effects inside the loop
 }
 
 type deferRec struct {
@@ -232,7 +233,11 @@ func (f *Frame) loadPlace(p *Place) Val {
 		nf = c.NF
 	case pHeap:
 		base = ex.readObj(f.st, p.heap, p.ptr)
-		prov = p.prov.closure()
+		// the loaded value may refer to whatever the container's content refers to (not to the container itself)
+		for o := range p.prov {
+			prov = prov.union(o.inner)
+		}
+		prov = prov.closure()
 		nf = p.nf
 	case pGlobal:
 		base = ex.globalTerm(p.global)
@@ -303,7 +308,11 @@ func (f *Frame) storePlace(p *Place, v Val, anchor string) {
 			o.inner = o.inner.union(v.Prov)
 		}
 	case pGlobal:
-		f.oblige("global_frame", p.global.Name(), not(f.pc), nil, "")
+		if tf := f.ex.topFn; tf != nil && tf.Parent() == nil && (tf.Name() == "init" || strings.HasPrefix(tf.Name(), "init#")) {
+			ex.note("package initialiser writes package variables: " + f.ex.topKey)
+		} else {
+			f.oblige("global_frame", p.global.Name(), not(f.pc), nil, "")
+		}
 	}
 }
 
@@ -316,8 +325,16 @@ func (ex *Exec) readObjRaw(st *State, name, ptr string) string {
 func (f *Frame) checkHeapWrite(heap, ptr string, prov provSet, anchor string) {
 	ex := f.ex
 	if !ex.mutable[heap] {
-		// only objects allocated by this activation may be written
-		f.oblige("frame_store", anchor, implies(f.pc, "(< "+ptr+" 0)"), nil, "")
+		// only objects allocated by this activation (or named in a writes clause) may be written
+		if strings.HasPrefix(ptr, "fv.") && f.ex.topFn != nil && f.ex.topFn.Parent() != nil {
+			ex.note("closure writes a captured variable of its enclosing function (not a shared object): " + f.ex.topKey)
+		} else {
+			alts := []string{"(< " + ptr + " 0)"}
+			for _, w := range ex.writable[heap] {
+				alts = append(alts, "(= "+ptr+" "+w+")")
+			}
+			f.oblige("frame_store", anchor, implies(f.pc, or(alts...)), nil, "")
+		}
 	}
 	for _, pr := range f.st.published {
 		if pr.obj.heap != heap {
